@@ -235,10 +235,34 @@ def history(rng, tier):
         g.emit('dd_reopen %s' % rng.choice(['rw', 'ro']))
     return g.lines
 
+def alias_history(rng, tier):
+    """a 1-d numeric array under a sole alias dimension: every write path in both directions, legal and illegal (unsorted / NaN ticks
+    through the dimension must be refused and leave the array's data alone), interleaved with reopen"""
+    g = G(rng, tier)
+    g.dt = rng.choice(NUMERIC); g.rank = 1; g.shape = [rng.choice([0, 1, 3, 5])]
+    g.lines = ['dd_new %s %s %d %d' % (g.dt, lst([str(x) for x in g.shape]), g.ncols, rng.randint(0, 3)), 'dd_obs']
+    if rng.random() < 0.5: g.emit('dd_arr data %s' % lst(sorted_data(g.dt, rng)))
+    if rng.random() < 0.5: g.emit('dd_arr unit %s' % S(rng.choice(UNITS_OK)))
+    g.emit('dd_app alias'); g.kinds = ['A']
+    for _ in range(rng.randint(4, 10 if tier == 'quick' else 20)):
+        q = rng.random()
+        if q < 0.3: g.emit('dd_set 1 ticks %s' % lst(ticks_bad(rng)))
+        elif q < 0.5: g.emit('dd_set 1 ticks %s' % lst(sorted_data(g.dt, rng)))
+        elif q < 0.6: g.emit('dd_arr data %s' % lst(data_values(g.dt, rng)))
+        elif q < 0.7: g.emit('dd_set 1 %s' % rng.choice(['unit ' + unit(rng), 'unit ' + unit(rng, True), 'label ' + label(rng), 'unit ~', 'label ~']))
+        elif q < 0.8: g.emit('dd_arr %s' % rng.choice(['unit ' + unit(rng), 'unit ' + unit(rng, True), 'label ' + label(rng), 'unit ~']))
+        elif q < 0.87: g.emit('dd_ticks 1 %d %d' % (rng.choice([0, 0, 1, 2]), rng.choice([0, 1, 2, 3, 50])), obs=False)
+        elif q < 0.93: g.emit('dd_app %s' % rng.choice(['alias', 'set []', 'range %s ~ ~' % lst(ticks_bad(rng))]))
+        else: g.emit('dd_reopen rw')
+    if rng.random() < 0.5: g.emit('dd_reopen %s' % rng.choice(['rw', 'ro']))
+    return g.lines
+
 def cases(tier, seed, rng):
     from vlib.runner import Case
     n = 600 if tier == 'quick' else 2500
-    return [Case(history(rng, tier), 'gen:dimdesc') for _ in range(n)]
+    out = [Case(history(rng, tier), 'gen:dimdesc') for _ in range(n)]
+    out += [Case(alias_history(rng, tier), 'gen:alias') for _ in range(60 if tier == 'quick' else 400)]
+    return out
 
 def nontrivial(case, tags):
     return any(t.startswith('dd_app.') and t.endswith('.ok') for t in tags) and any(t.startswith('dd_obs.n') and not t.startswith('dd_obs.n0.') for t in tags)
